@@ -21,6 +21,7 @@ from collections import Counter
 
 import common as C
 import gen_x as G
+import xparse
 
 PID = "C01"
 FUEL = 200000          # evaluation steps of the reference semantics (run-length bound of the quantifier)
@@ -302,11 +303,17 @@ def evaluate(h, drv, cases):
     sexps = [G.to_sexp(p) for p, _, _ in cases]
     refs = sem_drive(drv, [sem_line(sx, d, f) for sx, (_, d, f) in zip(sexps, cases)])
     idx = [i for i, r in enumerate(refs) if r.startswith("ok ")]
-    reals = real_drive(h, [real_line(G.to_source(cases[i][0]), cases[i][1], cases[i][2]) for i in idx]) if idx else []
+    reals = real_drive(h, [real_line(source_of(cases[i][0]), cases[i][1], cases[i][2]) for i in idx]) if idx else []
     out = [(r, None) for r in refs]
     for i, o in zip(idx, reals):
         out[i] = (refs[i], o)
     return out
+
+
+def source_of(prog):
+    """source text handed to the real compiler: comments and layout noise derived from the program itself"""
+    sx = G.to_sexp(prog)
+    return G.to_source(prog, layout=C.Rng(len(sx) * 7919 + sum(sx.encode()[:200])))
 
 
 def fails(ref, real):
@@ -422,8 +429,8 @@ def run(tier, seed, replay=None):
     cases = []          # (prog, data, files)
     progs = []
     for i in range(nprog):
-        size = [0.5, 1.0, 1.0, 1.6][i % 4]
-        prog, f = G.generate(C.Rng(r.next()), size)
+        size = [0.5, 1.0, 1.0, 1.6][i % 4] if i % 25 else 3.0
+        prog, f = G.generate(C.Rng(r.next()), size, loose=(i % 7 == 3))
         progs.append(prog)
         feats.update(f)
         G.count_constructs(prog, constructs)
@@ -446,8 +453,23 @@ def run(tier, seed, replay=None):
             if not good:
                 corpus_bad.append((fn, o))
 
+    # corpus of minimised past failures and boundary programs (corpus/C01/*.x): run first, through the same oracle
+    ncorpus = 0
+    cdir = os.path.join(C.ROOT, "corpus", PID)
+    if os.path.isdir(cdir):
+        pre = []
+        for fn in sorted(os.listdir(cdir)):
+            if fn.endswith(".x"):
+                prog = xparse.parse(open(os.path.join(cdir, fn), encoding="latin1").read())
+                for data in (b"", b"\x00a", b"zz\xff"):
+                    pre.append((prog, data, "2=4142" if "files" in fn else "-"))
+        ncorpus = len(pre)
+        cases = pre + cases
     results = evaluate(h, drv, cases)
     t_run = time.time() - t0
+    for (prog, data, files), (ref, real) in list(zip(cases, results))[:ncorpus]:
+        if not ref.startswith("ok "):
+            corpus_bad.append(("corpus program not defined by the reference semantics", G.to_source(prog) + ref))
 
     undefined = Counter()
     ndef = 0
@@ -526,7 +548,7 @@ def run(tier, seed, replay=None):
         "mismatching_cases": len(mism), "mismatching_programs": len(seen_prog),
         "known_finding_programs": sum(known.values()),
         "shrunk_witnesses": [{"source": s, "reference": v[3], "implementation": v[4]} for s, v in list(uniq.items())[:10]],
-        "corpus_checked": len(clines), "corpus_bad": [f for f, _ in corpus_bad],
+        "corpus_checked": len(clines), "corpus_cases": ncorpus, "corpus_bad": [f for f, _ in corpus_bad],
         "lean": info, "fuel": FUEL, "max_cycles": MAXCYCLES, "run_wall_s": round(t_run, 1),
         "traces_validated_against_impl": ndef - len(mism),
     })
